@@ -176,8 +176,20 @@ replace verif/kit => %s
 	// is unnecessary because go build reports dependants separately.
 
 	var imports []string
+	badPkg := map[string]bool{}
 	for _, r := range reports {
-		if r.CompileOK {
+		if !r.CompileOK {
+			badPkg[r.GoPkg] = true
+		}
+	}
+	seenImp := map[string]bool{}
+	for _, r := range reports {
+		if r.CompileOK && badPkg[r.GoPkg] {
+			r.CompileOK = false
+			r.CompileErr = "another file of the same Go package could not be generated or compiled"
+		}
+		if r.CompileOK && !seenImp[r.GoPkg] {
+			seenImp[r.GoPkg] = true
 			imports = append(imports, r.GoPkg)
 		}
 	}
@@ -227,8 +239,16 @@ func compileCheck(root string, reports []*UnitReport) map[string]string {
 	failed := map[string]string{}
 	for round := 0; round < 50; round++ {
 		var pkgs []string
+		seenPkg := map[string]bool{}
+		pluginBad := map[string]bool{}
 		for _, r := range reports {
-			if _, bad := failed[r.GoPkg]; r.PluginOK && !bad {
+			if !r.PluginOK {
+				pluginBad[r.GoPkg] = true // a package missing one of its files cannot be judged
+			}
+		}
+		for _, r := range reports {
+			if _, bad := failed[r.GoPkg]; r.PluginOK && !bad && !seenPkg[r.GoPkg] && !pluginBad[r.GoPkg] {
+				seenPkg[r.GoPkg] = true
 				pkgs = append(pkgs, r.GoPkg)
 			}
 		}
